@@ -114,7 +114,7 @@ def gen_scan(ctx, quick):
                     hs = [H if r.random() < p else r.choice(pool[1:]) for _ in range(size + r.choice([0, 0, 2]))]
                     cases.append((size, hmc, fn, H, hs))
     # random tuples, all lengths up to beyond 100, clocks around the list length and around 100
-    for _ in range(20000 if quick else 600000):
+    for _ in range(120000 if quick else 900000):
         size = r.choice([r.randrange(0, 16), r.randrange(0, 140), r.choice([98, 99, 100, 101, 102, 103, 104])])
         n = size + r.choice([0, 0, 1, 4, 400])
         p = r.choice([0.02, 0.1, 0.3])
@@ -148,6 +148,19 @@ def check_scan(ctx, quick, env):
             ctx.violation(f"Search::canClaimDrawRep(size={s}, hmc={c}, firstNew={f}) returned {o1[i]}, the window specification (rep_scan_spec) gives {exp}",
                           {"kind": "property-predicate", "tie": "scan-kernel", "input": [lines[i]], "impl_output": o1[i], "expected": exp})
     ctx.sample({"op": lines[0][:80], "impl": o1[0]})
+    if not quick:
+        # the same tuples under ASan + UBSan: an out-of-range read of posHashList is reported instead of going unnoticed
+        bda = vlib.cxx_build("asan", ("vharness",))
+        e2 = dict(env); e2.update({"ASAN_OPTIONS": "detect_leaks=0:abort_on_error=0:exitcode=66", "UBSAN_OPTIONS": "halt_on_error=1:exitcode=66"})
+        sub = lines[:len(cases)][:250000]
+        oa = prun(os.path.join(bda, "vharness"), sub, e2)
+        ctx.tie("scan-kernel-asan", kind="the scan tuples through the ASan+UBSan build of the harness, compared with rep_scan_spec", lines=len(sub))
+        for i, o in enumerate(oa):
+            s_, c_, f_, h_, hs_ = cases[i]
+            if o.startswith("<skipped"): continue
+            if o != ("1" if scan_spec(s_, c_, f_, h_, hs_) else "0"):
+                ctx.violation(f"Search::canClaimDrawRep(size={s_}, hmc={c_}, firstNew={f_}) under ASan/UBSan: {o[:300]}",
+                              {"kind": "property-predicate", "tie": "scan-kernel", "variant": "asan", "input": [sub[i]], "impl_output": o}); break
     if not nbad:
         for i, (a, b) in enumerate(zip(o1, o2)):
             if a != b and usable(a, b):
@@ -246,21 +259,21 @@ def game_specs(ctx, quick, scale=1.0):
     n = lambda q, t: max(1, int((q if quick else t) * scale))
     specs = []
     seeds = [START] + chessgen.SEED_FENS + CASTLE_FENS
-    for _ in range(n(60, 6000)):       # F1: random games, then cycles over random routes, short tail
+    for _ in range(n(110, 2200)):       # F1: random games, then cycles over random routes, short tail
         specs.append({"fam": "cycles", "fen": r.choice(seeds), "prefix": r.randrange(0, 40), "rev": r.choice([0, 30, 60]), "cycles": r.randrange(2, 5), "tail": r.randrange(0, 3)})
-    for _ in range(n(25, 2500)):       # F2: long histories with late zeroing moves (list longer than 100, cleared, refilled)
+    for _ in range(n(40, 800)):       # F2: long histories with late zeroing moves (list longer than 100, cleared, refilled)
         specs.append({"fam": "long", "fen": r.choice([START] + chessgen.SEED_FENS[:6]), "prefix": r.randrange(85, 150), "rev": r.choice([60, 85, 95]), "cycles": r.randrange(2, 4), "tail": r.randrange(0, 2)})
-    for _ in range(n(50, 5000)):       # F3: clocks around 100, by FEN and by played reversible moves
+    for _ in range(n(90, 2000)):       # F3: clocks around 100, by FEN and by played reversible moves
         f = r.choice(seeds + SPARSE)
         if r.random() < 0.6:
             specs.append({"fam": "clock-fen", "fen": set_hmc(f, r.randrange(88, 111)), "prefix": r.randrange(0, 14), "rev": 100, "cycles": r.choice([0, 0, 2]), "tail": 0})
         else:
             specs.append({"fam": "clock-played", "fen": set_hmc(f, r.choice([0, 0, 5, 40])), "prefix": r.randrange(92, 108), "rev": 100, "cycles": r.choice([0, 0, 2]), "tail": 0})
-    for _ in range(n(60, 6000)):       # F4: double push beside a pinned / rank-pinned enemy pawn, then shuffles over random routes
+    for _ in range(n(120, 3000)):       # F4: double push beside a pinned / rank-pinned enemy pawn, then shuffles over random routes
         fen, mv, kind = ep_pin_family(r)
         specs.append({"fam": "ep-" + kind, "fen": fen, "prefix": 0, "rev": 100, "cycles": r.randrange(2, 5), "tail": 0, "forced": [mv]})
     specs.append({"fam": "ep-file", "fen": "3k4/8/8/8/3p4/8/4P3/3R2K1 w - - 0 1", "prefix": 0, "rev": 100, "cycles": 3, "tail": 0, "forced": ["e2e4"]})
-    for _ in range(n(30, 3000)):       # F5: castling rights lost inside the first cycle
+    for _ in range(n(50, 1000)):       # F5: castling rights lost inside the first cycle
         specs.append({"fam": "castle", "fen": r.choice(CASTLE_FENS), "prefix": r.randrange(0, 3), "rev": 100, "cycles": r.randrange(2, 5), "tail": 0})
     return specs
 
@@ -306,10 +319,14 @@ def check_setup(ctx, games, env, quick):
 # (c) engine level
 # ---------------------------------------------------------------------------------------------
 
+REGRESSION_ENGINE = {"fam": "ep-file", "fen": "3k4/8/8/8/3p4/8/4P3/3R2K1 w - - 0 1", "hist": "e2e4 d8d7 g1g2 d7d8 g2g1 d8e8 g1g2 e8d8".split(), "m": "g2g1"}
+REGRESSION_REDO = "setpos 3k4/8/8/8/3p4/8/4P3/3R2K1 w - - 0 1 ; mv e2e4 ; undo ; redo ; mv d8d7 ; mv g1g2 ; mv d7d8 ; mv g2g1 ; mv d8e8 ; mv g1g2 ; mv e8d8 ; rep g2g1"
+
+
 def engine_cases(ctx, games, quick):
     """(fen, history, move) candidates: every cut inside / right after the cycle region, and clock crossings"""
     r = ctx.rng
-    cands = []
+    cands = [dict(REGRESSION_ENGINE)]
     for g in games:
         n = len(g["moves"])
         ks = set()
@@ -331,7 +348,7 @@ def mate_first_cases(ctx, quick, env):
     ok = [o[3:] for o in oracle([f"chess fen {f}" for f in fens]) if o.startswith("ok ")]
     m1 = [f for f, b in zip(ok, oracle([f"mate mate1 {f}" for f in ok])) if b == "1"]
     r.shuffle(m1)
-    m1 = m1[:25 if quick else 800]
+    m1 = m1[:25 if quick else 400]
     cands = []
     legal = oracle([f"chess legal {f}" for f in m1])
     for f, l in zip(m1, legal):
@@ -451,9 +468,10 @@ def check_engine(ctx, games, quick, env):
     by = {}
     for c in cands: by.setdefault((c["fam"], c["why"]), []).append(c)
     chosen = []
-    cap = 18 if quick else 1500
+    cap = 26 if quick else 400
     for key, cs in sorted(by.items()):
         r.shuffle(cs)
+        cs.sort(key=lambda c: not (c["fen"] == REGRESSION_ENGINE["fen"] and c["hist"] == REGRESSION_ENGINE["hist"]))
         chosen += cs[:cap * (3 if key[0].startswith("ep-") else 1)]
     # a second root move for the MultiPV variants (posHashFirstNew is one higher with MultiPV > 1)
     need = [c for c in chosen if r.random() < 0.25]
@@ -477,7 +495,7 @@ def check_engine(ctx, games, quick, env):
     # (depth 1: below ply 1 only the quiescence search runs, which does not look at the history)
     r.shuffle(controls)
     second = [c for c in controls if " occ=1 " in " " + c["oracle"] + " "]
-    controls = (second[:60 if quick else 4000] + [c for c in controls if c not in second][:20 if quick else 1000])
+    controls = (second[:60 if quick else 2500] + [c for c in controls if c not in second][:20 if quick else 500])
     roots = oracle([f"chess line {c['fen']} " + " ".join(c["hist"]) for c in controls])
     cjobs = []
     for c, o in zip(controls, roots):
@@ -572,6 +590,7 @@ def track_and_check(ctx, g, items, out):
 def check_games(ctx, games, quick, env):
     r = ctx.rng
     scripts = gen_scripts(ctx, games, quick)
+    scripts.append(({"fam": "ep-file"}, REGRESSION_REDO.split(" ; ")))
     lines = ["draw game " + " ; ".join(items) for _, items in scripts]
     lines += ["draw game mv e2e4 ; offer e7e5 ; accept ; undo ; undo ; redo ; mv g1f3 ; rep ; fifty g8f6 ; cp b1c3 ; resign ; junk",
               "draw game bogus", "draw game mv e2", "draw game setpos 8/8/8/8/8/8/8/8 w - - 0 1 ; mv e2e4"]
@@ -683,8 +702,8 @@ def run(ctx):
     ctx.log("history builder done")
     check_engine(ctx, games, quick, env)
     ctx.log("engine audit done")
-    cgames = gen_games(ctx, game_specs(ctx, quick, 1.0) + [{"fam": "sparse", "fen": f, "prefix": ctx.rng.randrange(0, 60), "rev": 0, "cycles": ctx.rng.choice([0, 2]), "tail": 0}
-                                                          for f in SPARSE * (4 if quick else 200)], env)
+    cgames = gen_games(ctx, game_specs(ctx, quick, 2.0 if quick else 3.0) + [{"fam": "sparse", "fen": f, "prefix": ctx.rng.randrange(0, 60), "rev": 0, "cycles": ctx.rng.choice([0, 2]), "tail": 0}
+                                                          for f in SPARSE * (8 if quick else 200)], env)
     check_games(ctx, cgames, quick, env)
     ctx.log("console game done")
     xlate.report(ctx, xr)
